@@ -116,6 +116,13 @@ def run(ctx, facts):
     rn = inner[0]
     OBS = obs_param(rn)
     fl = flow(rn)
+    # the observation is what the caller saw: it is never overwritten inside the routine (a forwarded bin holds the very same value
+    # pointers as the bin it was copied from, so nothing justifies forgetting it)
+    redefs = [d for d in rn.defs.get(OBS, []) if d[1] != "arg"]
+    ctx.inst("N2", rn, "the observation is not overwritten", rn.span_at(redefs[0][0]) if redefs else rn.span, not redefs,
+             "the observed-value parameter has no assignment in the body" if not redefs else
+             "the observed value is overwritten at %s: from then on the removal no longer depends on what the predicate saw "
+             "(retain degenerates into retain_force on that path)" % rn.span_at(redefs[0][0]))
     muts = mutations(rn)
     vs = [v for v in validated_regions(rn) if bin_lock_region(v.region)]
     if len(vs) < 2:
@@ -188,6 +195,38 @@ def run(ctx, facts):
                 a, b2 = cd.get("a"), cd.get("b")
                 if (a in obs_l and stored_in_region(rn, b2, v)) or (b2 in obs_l and stored_in_region(rn, a, v)):
                     permits.append(((blk, cd["true"]), "observed pointer == stored pointer", False))
+            elif cd["kind"] == "bool" and rn.ty(cd["local"])["s"] == "bool":
+                # a named bool computed by `match observed { Some(ov) => ov == stored, None => true }` (or an if/else of that shape):
+                # every definition is the identity comparison, `true` under `observation is None`, or `false`
+                t = cd["local"]
+                defs = [d for d in rn.defs.get(t, []) if d[1] in ("assign", "call")]
+                okb, ton = bool(defs), False
+                none_edges = []
+                for blk2 in sorted({p[0] for p in r.points}):
+                    cd2 = cond_of(rn, blk2)
+                    if cd2 and cd2["kind"] == "is_none" and cd2.get("arg") in obs_l:
+                        none_edges.append((blk2, cd2["true"]))
+                for pt, kind, data in defs:
+                    if pt not in r.points:
+                        okb = False
+                        break
+                    if kind == "call":
+                        from .analysis import ref_target
+                        c2 = data
+                        x, y = (ref_target(rn, c2.args[0]), ref_target(rn, c2.args[1])) if len(c2.args) >= 2 else (None, None)
+                        if is_ptr_cmp(c2) == "eq" and ((x in obs_l and stored_in_region(rn, y, v)) or (y in obs_l and stored_in_region(rn, x, v))):
+                            continue
+                        okb = False
+                    else:
+                        val = data["rv"]["use"].get("int") if "use" in data["rv"] else None
+                        if val == 0:
+                            continue
+                        if val == 1 and none_edges and dominated_by_edge(rn, pt, none_edges):
+                            ton = True
+                            continue
+                        okb = False
+                if okb:
+                    permits.append(((blk, cd["true"]), "`%s` = observation is None or observed == stored" % (rn.local_name(t) or "_%d" % t), ton))
             elif cd["kind"] == "call":
                 uc = cd["call"]
                 tb = facts.by_id.get(uc.resolved)
